@@ -4,6 +4,7 @@ import (
 	"bytes"
 	"fmt"
 	"math"
+	"math/rand"
 	"reflect"
 	"sort"
 	"strconv"
@@ -22,6 +23,7 @@ type c16 struct {
 	args        [][]stick.Value
 	iterVals    []gen.Named
 	nGet, nIter int
+	nRand       int
 }
 
 func init() { fw.Register("C16", func() fw.Property { return &c16{} }) }
@@ -52,14 +54,149 @@ func (p *c16) Init(tier string, seed int64) {
 	arr := [5]string{"a", "b", "c", "d", "e"}
 	p.iterVals = append(p.iterVals, gen.N("[5]string", arr), gen.N("*[5]string", &arr))
 	p.nIter = len(p.iterVals)
+	p.nRand = p.pick(20000, 600000)
 }
 
-func (p *c16) N() int { return p.nGet + p.nIter }
+func (p *c16) N() int { return p.nGet + p.nIter + p.nRand }
+
+// randValue builds a random nested Go value (maps keyed by string/int/float/bool/interface,
+// slices, arrays, pointers, structs, scalars) together with a label.
+func randValue(r *rand.Rand, depth int) (stick.Value, string) {
+	if depth <= 0 {
+		switch r.Intn(8) {
+		case 0:
+			return r.Intn(10), "int"
+		case 1:
+			return float64(r.Intn(5)) + 0.5, "float"
+		case 2:
+			return []string{"a", "k", "1", "", "Name"}[r.Intn(5)], "string"
+		case 3:
+			return r.Intn(2) == 0, "bool"
+		case 4:
+			return nil, "nil"
+		case 5:
+			return int8(r.Intn(5)), "int8"
+		case 6:
+			return uint16(r.Intn(5)), "uint16"
+		default:
+			return gen.ValStringer{S: "k"}, "stringer"
+		}
+	}
+	n := r.Intn(4)
+	switch r.Intn(11) {
+	case 0:
+		m := map[string]stick.Value{}
+		for i := 0; i < n; i++ {
+			v, _ := randValue(r, depth-1)
+			m[[]string{"a", "k", "1", "0", "Name", ""}[r.Intn(6)]] = v
+		}
+		return m, "map[string]Value"
+	case 1:
+		m := map[int]stick.Value{}
+		for i := 0; i < n; i++ {
+			v, _ := randValue(r, depth-1)
+			m[r.Intn(4)] = v
+		}
+		return m, "map[int]Value"
+	case 2:
+		m := map[stick.Value]stick.Value{}
+		for i := 0; i < n; i++ {
+			v, _ := randValue(r, depth-1)
+			k, _ := randValue(r, 0)
+			if k == nil {
+				k = "nilkey"
+			}
+			m[k] = v
+		}
+		return m, "map[Value]Value"
+	case 3:
+		m := map[float64]string{}
+		for i := 0; i < n; i++ {
+			m[float64(r.Intn(4))/2] = "f" + strconv.Itoa(i)
+		}
+		return m, "map[float64]string"
+	case 4:
+		sl := make([]stick.Value, n)
+		for i := range sl {
+			sl[i], _ = randValue(r, depth-1)
+		}
+		return sl, "[]Value"
+	case 5:
+		sl := make([]int, n)
+		for i := range sl {
+			sl[i] = r.Intn(100)
+		}
+		return sl, "[]int"
+	case 6:
+		v, l := randValue(r, depth-1)
+		if v == nil {
+			return v, l
+		}
+		pv := reflect.New(reflect.TypeOf(v))
+		pv.Elem().Set(reflect.ValueOf(v))
+		return pv.Interface(), "*" + l
+	case 7:
+		t := gen.NewThing()
+		t.Any, _ = randValue(r, depth-1)
+		return t, "Thing"
+	case 8:
+		return [2]string{"x", "y"}, "[2]string"
+	case 9:
+		m := map[bool]int{}
+		if n > 0 {
+			m[r.Intn(2) == 0] = n
+		}
+		return m, "map[bool]int"
+	default:
+		m := map[uint8]string{}
+		for i := 0; i < n; i++ {
+			m[uint8(r.Intn(4))] = "u" + strconv.Itoa(i)
+		}
+		return m, "map[uint8]string"
+	}
+}
+
+func (p *c16) randCase(i int) (gen.Named, gen.Named) {
+	r := gen.Rng(p.seed, "c16", i)
+	v, l := randValue(r, 1+r.Intn(3))
+	var k stick.Value
+	kl := ""
+	// half of the keys are taken from the container itself (so that elements exist)
+	rv := reflect.ValueOf(v)
+	for rv.IsValid() && rv.Kind() == reflect.Ptr && !rv.IsNil() {
+		rv = rv.Elem()
+	}
+	if rv.IsValid() && rv.Kind() == reflect.Map && rv.Len() > 0 && r.Intn(2) == 0 {
+		keys := rv.MapKeys()
+		k = keys[r.Intn(len(keys))].Interface()
+		kl = fmt.Sprintf("own key %#v", k)
+		if r.Intn(3) == 0 { // the same key carried by another type
+			switch kk := k.(type) {
+			case int:
+				k, kl = float64(kk), fmt.Sprintf("own key as float64 %d", kk)
+			case string:
+				if f, err := strconv.ParseFloat(kk, 64); err == nil {
+					k, kl = f, fmt.Sprintf("own key %q as number", kk)
+				}
+			case uint8:
+				k, kl = int(kk), fmt.Sprintf("own key as int %d", kk)
+			}
+		}
+	} else {
+		ks := p.keys[r.Intn(len(p.keys))]
+		k, kl = ks.V, ks.Label
+	}
+	return gen.N(fmt.Sprintf("random %s %s", l, clip(fmt.Sprintf("%#v", v), 160)), v), gen.N(kl, k)
+}
 
 func (p *c16) Describe(i int) interface{} {
 	if i < p.nGet {
 		c, k := p.conts[i/len(p.keys)], p.keys[i%len(p.keys)]
 		return map[string]interface{}{"kind": "getattr", "container": c.Label, "key": k.Label, "arg_lists": len(p.args)}
+	}
+	if i >= p.nGet+p.nIter {
+		c, k := p.randCase(i)
+		return map[string]interface{}{"kind": "random nested container", "container": c.Label, "key": k.Label}
 	}
 	return map[string]interface{}{"kind": "iterate/len/contains/is*", "value": p.iterVals[i-p.nGet].Label}
 }
@@ -313,12 +450,33 @@ func safeGetAttr(c, k stick.Value, args []stick.Value) (v stick.Value, err error
 var c16env = stick.New(nil)
 
 func (p *c16) Run(i int) (res fw.Result) {
+	if i >= p.nGet+p.nIter {
+		c, k := p.randCase(i)
+		p.runGet(&res, c, k, p.args[:1])
+		p.runIter(&res, c)
+		return
+	}
 	if i >= p.nGet {
 		p.runIter(&res, p.iterVals[i-p.nGet])
 		return
 	}
-	c, k := p.conts[i/len(p.keys)], p.keys[i%len(p.keys)]
-	for ai, args := range p.args {
+	p.runGet(&res, p.conts[i/len(p.keys)], p.keys[i%len(p.keys)], p.args)
+	return
+}
+
+func (p *c16) runGet(res0 *fw.Result, c, k gen.Named, argLists [][]stick.Value) {
+	var res fw.Result
+	defer func() {
+		res0.Evals += res.Evals
+		res0.Viols = append(res0.Viols, res.Viols...)
+		res0.Sigs = append(res0.Sigs, res.Sigs...)
+		for cl, n := range res.Classes {
+			for j := 0; j < n; j++ {
+				res0.AddClass(cl)
+			}
+		}
+	}()
+	for ai, args := range argLists {
 		res.Evals++
 		mode, cands := expectation(c.V, k.V, args)
 		v, err, pan := safeGetAttr(c.V, k.V, args)
@@ -446,7 +604,7 @@ func (p *c16) runIter(res *fw.Result, z gen.Named) {
 				if !want.IsValid() || !deepEq(want.Interface(), e.v) {
 					res.Fail("map-entry", key, fmt.Sprintf("Iterate(%s): visited (%#v, %#v), which is not an entry of the map", z.Label, e.k, e.v), nil)
 				}
-				seen[fmt.Sprintf("%#v", e.k)]++
+				seen[fmt.Sprintf("%T:%#v", e.k, e.k)]++
 			} else {
 				if ki, ok := e.k.(int); !ok || ki != j || !deepEq(rv.Index(j).Interface(), e.v) {
 					res.Fail("slice-order", key, fmt.Sprintf("Iterate(%s): callback %d got (%#v, %#v), want (%d, %#v)", z.Label, j, e.k, e.v, j, rv.Index(j).Interface()), nil)
@@ -515,7 +673,7 @@ func (p *c16) runIter(res *fw.Result, z gen.Named) {
 }
 
 func (p *c16) Rule() string {
-	return "getattr: the full product container zoo (nil/empty/populated slices and arrays of several element types, maps keyed by string/int/float/bool/uint8/interface/struct, structs with exported, unexported, func-typed fields and value/pointer-receiver methods of arity 0..2, variadic, multi-return, no-return, pointer/interface/float/slice parameters; through 0..2 pointer levels; nil pointers; non-containers) x key zoo (strings incl. field/method names, ints, floats incl. NaN/Inf/1e30, bools, nil, nil pointer, containers, Stringer, safe value) x 22 argument lists; expectation computed with plain reflection in the harness: the element when the key/arguments are usable as given, element-or-error when a conversion is conceivable (number for a string-keyed map, numeric string or bool for a slice, fractional index, float for an int parameter, second pointer level), error otherwise; never a panic, never a wrong element. Each pair is also driven through {{ v[k] }}, {% for %} and 'in' in a template. iterate: every zoo value plus generated slices/maps of length 0..8 through 0..2 pointer levels: order, exactly-once, loop identities at every position, returned count, early break at 1..3, and agreement of Len, Contains (needles present and absent), IsIterable, IsArray, IsMap with the traversal. Non-trivial = key usable or convertible, or a method call; distinct = (container, key, arg list)."
+	return "getattr: the full product container zoo (nil/empty/populated slices and arrays of several element types, maps keyed by string/int/float/bool/uint8/interface/struct, structs with exported, unexported, func-typed fields and value/pointer-receiver methods of arity 0..2, variadic, multi-return, no-return, pointer/interface/float/slice parameters; through 0..2 pointer levels; nil pointers; non-containers) x key zoo (strings incl. field/method names, ints, floats incl. NaN/Inf/1e30, bools, nil, nil pointer, containers, Stringer, safe value) x 22 argument lists; expectation computed with plain reflection in the harness: the element when the key/arguments are usable as given, element-or-error when a conversion is conceivable (number for a string-keyed map, numeric string or bool for a slice, fractional index, float for an int parameter, second pointer level), error otherwise; never a panic, never a wrong element. Each pair is also driven through {{ v[k] }}, {% for %} and 'in' in a template. iterate: every zoo value plus generated slices/maps of length 0..8 through 0..2 pointer levels: order, exactly-once, loop identities at every position, returned count, early break at 1..3, and agreement of Len, Contains (needles present and absent), IsIterable, IsArray, IsMap with the traversal. random: seeded nested containers (maps keyed by string/int/float/bool/uint8/interface, slices, arrays, pointers, structs; depth<=3) looked up with one of their own keys (as is, or carried by another numeric type / as a numeric string) or a zoo key, and iterated. Non-trivial = key usable or convertible, or a method call; distinct = (container, key, arg list)."
 }
 
 func (p *c16) Assumptions() []string {
